@@ -545,6 +545,10 @@ package server
 //@   at call LongWaitLockQueue.Push assert C06.longkey: lock.expriedCheckedCount > 8 && lock.expriedTime >= self.checkExpriedTime && lock.expriedTime >= old(lock.expriedTime)
 //@   at call PushLockAof assert C07.persist.when: !lock.isAof && lock.aofTime != 0xff && self.currentTime - lock.startTime >= lock.aofTime
 //@   ensures C06.armed.notearlier: lock.expriedTime >= old(lock.expriedTime)
+// the deferred first write of a hold puts one LOCK record per depth into the log (a restart or a follower rebuilds the
+// depth of a re-entrant hold by replaying them): if any is written, as many as the hold is deep are
+//@   loop#1 invariant calls(PushLockAof) == i && i <= lock.locked
+//@   ensures C02.persist.each-depth,C07.persist.each-depth: implies(calls(PushLockAof) >= 1, calls(PushLockAof) == lock.locked)
 //@   loop#1 invariant otherLocksSame(lock) && !lock.expried && lock.locked == old(lock.locked) && lock.refCount == old(lock.refCount) && lock.manager == old(lock.manager) && lock.command == old(lock.command) && lock.ackCount == old(lock.ackCount) && lock.timeouted == old(lock.timeouted) && lock.protocol == old(lock.protocol) && lock.expriedTime >= old(lock.expriedTime)
 //@   ensures otherLocksSame(lock) && lock.locked == old(lock.locked) && lock.refCount == old(lock.refCount) && lock.manager == old(lock.manager) && lock.command == old(lock.command) && lock.ackCount == old(lock.ackCount) && lock.timeouted == old(lock.timeouted) && lock.protocol == old(lock.protocol)
 //@   modifies AofChannel.*, AofLockQueue.next, AofLockQueue.windex, AofLock.*, Aof.freeLockQueueIndex, FastKeyValue.lock, FastKeyValue.manager, LockManager.fastKeyValue, LockData.aofData, LockManagerData.isAof, LockQueue.*, Lock.data@lock, Lock.expried@lock, Lock.expriedTime@lock, Lock.isAof@lock, Lock.longWaitIndex@lock, LongWaitLockFreeQueue.*, LongWaitLockQueue.*, PriorityMutex.*, E_LJPserver_Lock, E_Pserver_AofLock, E_Pserver_Lock, E_Pserver_LongWaitLockQueue, E_int32, MH_mapLL16JbyteJPserver_LockManager, MH_mapLint64JPserver_LongWaitLockQueue, MV_mapLL16JbyteJPserver_LockManager, MV_mapLint64JPserver_LongWaitLockQueue
